@@ -187,6 +187,7 @@ static void run_tree(Rng &r)
 {
     tg::GenOpts o;
     o.max_ports = 20; o.max_depth = 3; o.long_names = true;
+    if(r.chance(0.1)) { o.max_ports = 90; o.max_depth = 2; o.p_dup = 0; count("tables.big_root_table_generated"); }   // tables with far more ports than usual (first use is already realtime)
     tg::Tree t;
     tg::gen_tree(t, r, o);
     std::string tdesc = tg::render_table(t.root);
@@ -316,12 +317,14 @@ static void run_threadlink(Rng &r)
     describe_case(g_desc);
     distinct(hash_str(g_desc, r.next() & 0xffff));
     int ops = (int)r.range(10, 80);
+    bool lookahead_heavy = r.chance(0.25);   // many small messages in flight, all of them looked at before the first is consumed
     char blob[256];
     memset(blob, 7, sizeof blob);
     char raw[512];
     for(int o = 0; o < ops; ++o) {
         int k = (int)r.below(8);
         int blen = (int)r.range(0, (int64_t)maxmsg + 16);
+        if(lookahead_heavy) { blen = (int)r.below(3); if(k == 5 || k == 6) k = r.chance(0.8) ? 7 : k; else if(k == 4) k = 0; }
         if(blen > 250) blen = 250;
         switch(k) {
             case 0: case 1: { RT rt; tl.write("/m", "ib", o, blen, blob); } judge("threadlink_write"); break;
